@@ -215,21 +215,22 @@ def deletedOwned (s : St σ β) : List SlabID :=
 
 /-- `BatchPreload(ids, numWorkers)`: both the sequential (< 11 ids) and the parallel path put
     `decode(base[id])` into the cache for every id present in the base storage; the first
-    decoding error aborts.  In the parallel path the results already received when the error
-    arrives have been cached; `okPrefix` is how many results arrive before the failing one. -/
-def preloadOne (c : Codec σ β) (r : Except StErr (St σ β)) (id : SlabID) : Except StErr (St σ β) :=
-  match r with
-  | .error e => .error e
-  | .ok s =>
+    decoding error aborts, the entries cached before it stay cached (in the parallel path "before"
+    means "arrived before"; the model takes the list order as the arrival order). -/
+def preloadOne (c : Codec σ β) (r : St σ β × Option StErr) (id : SlabID) : St σ β × Option StErr :=
+  match r.2 with
+  | some _ => r
+  | none =>
+    let s := r.1
     match AList.find? s.base id with
-    | none => .ok s
+    | none => r
     | some b =>
       match c.dec id b with
-      | none => .error .decoding
-      | some v => .ok { s with cache := AList.insert s.cache id (some v) }
+      | none => (s, some .decoding)
+      | some v => ({ s with cache := AList.insert s.cache id (some v) }, none)
 
-def batchPreload (c : Codec σ β) (s : St σ β) (ids : List SlabID) : Except StErr (St σ β) :=
-  ids.foldl (preloadOne c) (.ok s)
+def batchPreload (c : Codec σ β) (s : St σ β) (ids : List SlabID) : St σ β × Option StErr :=
+  ids.foldl (preloadOne c) (s, none)
 
 /-- The slab visible under an identifier: latest store/remove, else cached, else committed. -/
 def view (c : Codec σ β) (s : St σ β) (id : SlabID) : Option σ :=
